@@ -114,7 +114,22 @@ func TestC32(t *testing.T) {
 		}
 		root := hx.ScratchDir("c32")
 		defer os.RemoveAll(root)
-		in := hx.NewInst(root, hx.InstOpts{Triggers: ms})
+		// one case in three: concurrent writers with the background WAL writer (a flushed transaction
+		// then carries several requests); the delivered multiset does not depend on the schedule
+		nwriters := 1
+		opts := hx.InstOpts{Triggers: ms}
+		if rapid.IntRange(0, 2).Draw(t, "concurrent") == 0 {
+			nwriters = rapid.IntRange(2, 4).Draw(t, "writers")
+			opts.WALRefresh = time.Duration(rapid.IntRange(1, 3).Draw(t, "walMs")) * time.Millisecond
+			opts.PrimaryRefresh = time.Duration(rapid.IntRange(3, 20).Draw(t, "ckptMs")) * time.Millisecond
+			opts.RotateInterval = 2
+		}
+		in := hx.NewInst(root, opts)
+		type prepared struct {
+			csm      io.ColumnSeriesMap
+			variable bool
+		}
+		var reqs []prepared
 		closed := false
 		defer func() {
 			if !closed {
@@ -122,7 +137,7 @@ func TestC32(t *testing.T) {
 			}
 		}()
 		var want []firedRec
-		nreq := rapid.IntRange(1, 6).Draw(t, "nrequests")
+		nreq := rapid.IntRange(1, 6*nwriters).Draw(t, "nrequests")
 		multiFileTG := false
 		base := int64(1609459200 - 86400*3) // 2020-12-29: requests may span two years
 		for q := 0; q < nreq; q++ {
@@ -185,10 +200,36 @@ func TestC32(t *testing.T) {
 			if len(files) >= 2 {
 				multiFileTG = true
 			}
-			if err := in.W.WriteCSM(csm, variable); err != nil {
-				t.Fatalf("write: %v", err)
-			}
+			reqs = append(reqs, prepared{csm, variable})
 			want = append(want, pend...)
+		}
+		if nwriters == 1 {
+			for _, r := range reqs {
+				if err := in.W.WriteCSM(r.csm, r.variable); err != nil {
+					t.Fatalf("write: %v", err)
+				}
+			}
+		} else {
+			var wg sync.WaitGroup
+			errs := make([]error, nwriters)
+			for w := 0; w < nwriters; w++ {
+				wg.Add(1)
+				go func(w int) {
+					defer wg.Done()
+					for i := w; i < len(reqs); i += nwriters {
+						if err := in.W.WriteCSM(reqs[i].csm, reqs[i].variable); err != nil {
+							errs[w] = err
+							return
+						}
+					}
+				}(w)
+			}
+			wg.Wait()
+			for _, err := range errs {
+				if err != nil {
+					t.Fatalf("concurrent write: %v", err)
+				}
+			}
 		}
 		// wait for the dispatcher
 		deadline := time.Now().Add(5 * time.Second)
@@ -245,7 +286,7 @@ func TestC32(t *testing.T) {
 			nt = fmt.Sprint(ons, bucketKeys(bs), hx.Hash(fmt.Sprint(want)))
 			rec.Sample(map[string]interface{}{"triggers": ons, "buckets": bucketKeys(bs), "requests": nreq, "records_delivered": len(got)})
 		}
-		rec.Case(nt, fmt.Sprintf("triggers=%d", ntr))
+		rec.Case(nt, fmt.Sprintf("triggers=%d", ntr), fmt.Sprintf("writers=%d", nwriters))
 	})
 	rec.Flush()
 }
